@@ -8,7 +8,7 @@ cp -r /repo/persim "$D/persim"
 ( cd "$D" && patch -p1 -s < "$P" ) || { echo "patch does not apply"; rm -rf "$D"; exit 3; }
 cd /verif
 set +e
-PERSIM_REPO="$D" VERIF_KEEP_EVIDENCE=1 ./check "$ID" "$TIER"; rc=$?
+PERSIM_REPO="$D" VERIF_KEEP_EVIDENCE=1 VERIF_REPLAY_DIR=/verif/.work/replay_try ./check "$ID" "$TIER"; rc=$?
 rm -rf "$D"
 echo "check exit=$rc"
 exit $rc
